@@ -209,6 +209,51 @@ def h_design_list(h):
     h.close(dc2, dc, "swap_axis-equals-exchanging-coordinates")
 
 
+def h_design_any_abscissa(h):
+    """one requested abscissa ANYWHERE (symbolic, in general position w.r.t. the vertices): a design condition is
+    returned iff the abscissa lies strictly inside the contour's extent, with the largest crossing ordinate"""
+    U = shim.mod("utils")
+    swap = h.cfg["swap"]
+    xi, yi = (1, 0) if swap else (0, 1)
+    rows, base, (s, off) = _poly(h, h.cfg["polygon"])
+    bx = [float(b[xi]) for b in base]
+    lo, hi = min(bx), max(bx)
+    p = h.real("probe", lo - 0.5, hi + 0.5)
+    for v in sorted(set(bx)):        # general position: not through a vertex (1e-6 of the extent away)
+        h.assume(sym.Or(p >= v + 3e-6, p <= v - 3e-6) if h.sym else abs(p - v) >= 2e-6)
+    x2 = s * (p + off[xi])
+    dc = U.calculate_design_conditions(_Contour(h.arr(rows)), steps=[x2], swap_axis=swap)
+    h.reach()
+    n = len(rows)
+    inside = sym.And(p > lo, p < hi) if h.sym else (lo < p < hi)
+    got = np.shape(dc)[0]
+    h.check(got in (0, 1), "at-most-one-row-per-abscissa")
+    if h.sym:
+        h.check(sym.Or(sym.And(inside, got == 1), sym.And(sym.Not(inside), got == 0)),
+                "design-condition-iff-abscissa-inside-the-contours-extent", f"{got} rows")
+    else:
+        h.check(bool(inside) == (got == 1), "design-condition-iff-abscissa-inside-the-contours-extent", f"{got} rows")
+    if got == 1:
+        top = None
+        for k in range(n):
+            a, b = k, (k + 1) % n
+            xa, xb = bx[a], bx[b]
+            if xa == xb:
+                continue
+            t = (p - xa) * (1.0 / (xb - xa))
+            y = rows[a][yi] + t * (rows[b][yi] - rows[a][yi])
+            crosses = sym.And(p > min(xa, xb), p < max(xa, xb)) if h.sym else (min(xa, xb) < p < max(xa, xb))
+            if h.sym:
+                cand = sym.If(crosses, y, -1e9)
+                top = cand if top is None else sym.If(cand > top, cand, top)
+            elif crosses:
+                top = y if top is None else max(top, y)
+        h.close(dc[0, 0], x2, "abscissa-as-requested")
+        d = dc[0, 1] - top
+        tol = 1e-7 * s * 10
+        h.check(sym.And(d <= tol, d >= -tol) if h.sym else abs(d) <= tol, "largest-ordinate-on-the-polygon-at-that-abscissa")
+
+
 def h_design_default(h):
     """steps=None / int: abscissae span the contour's extent (min + eps .. max - eps, eps = 1e-4 extent)"""
     U = shim.mod("utils")
@@ -249,6 +294,8 @@ def obligations(tier):
                   "quad": {False: [2.0, 4.0, 6.0], True: [1.2, 3.2]}}[poly][swap]
             for sc in ((1.0, 1e-4) if tier == "quick" else scales):
                 yield ("design_list", h_design_list, {"polygon": poly, "swap": swap, "probes": pr, "scale": sc},
+                       {"max_paths": 20000})
+                yield ("design_any_abscissa", h_design_any_abscissa, {"polygon": poly, "swap": swap, "scale": sc},
                        {"max_paths": 20000})
                 for steps in (None, 4):
                     if tier == "quick" and (steps is None) == swap:
